@@ -49,4 +49,29 @@ def withUnwind (f : Family) (safe : f.σ → List String → Bool) : Family :=
         else (s, runScoped f f.init ops [] ++ ["scoped caught"])
       | _ => f.step s ws }
 
+/-- `withUnwind` for families whose refusal rule looks at the op's own answer ("the model does not panic
+here"): the wrapped op is run ONCE; when `bad ws outs` holds the state is kept and the answer is `bad-op`.
+`pre` is the part of the rule that does not need the answer. -/
+def withUnwindOut (f : Family) (pre : f.σ → List String → Bool) (bad : List String → List String → Bool) : Family :=
+  { σ := f.σ
+    init := f.init
+    step := fun s ws =>
+      match ws with
+      | "unwinding" :: rest =>
+        match rest with
+        | [] => (s, ["bad-op"])
+        | w :: _ =>
+          if isPrefixWord w || !pre s rest then (s, ["bad-op"])
+          else
+            let (s', outs) := f.step s rest
+            if bad rest outs then (s, ["bad-op"]) else (s', outs)
+      | "scoped_panic" :: rest =>
+        let ops := splitScoped rest
+        if ops.isEmpty || ops.any (fun o => match o with | w :: _ => isPrefixWord w | [] => true) then (s, ["bad-op"])
+        else (s, runScoped f f.init ops [] ++ ["scoped caught"])
+      | _ => f.step s ws }
+
+/-- the usual `bad`: the model panicked or did not know the op -/
+def panicOrBad (_ : List String) (outs : List String) : Bool := outs.contains "panic" || outs.contains "bad-op"
+
 end Woodpile.Driver
